@@ -1,10 +1,37 @@
 /-
-  TwProofs.C05 — property theorems (see DESIGN.md, section 6).
+  TwProofs.C05 — text outside Textwire syntax is emitted byte for byte.
 -/
-import TwModel
-import TwSpec
+import TwProofs.Lemmas.PlainText
 
 namespace Tw.C05
 open Tw
+
+/-- `readHTML` copies plain text unchanged, whatever precedes it -/
+theorem readHTML_copies_plain (rest : Bytes) (prev : Byte) (h : Plain rest) :
+    htmlScan prev [] 0 false rest = (rest.reverse, rest.length, false) := by
+  have := htmlScan_plain rest prev [] 0 false h
+  simpa using this
+
+/-- **plain text renders to itself**: for *every* byte string that contains no "{{" and no '@'
+    followed by a directive keyword — including ones that begin with "}}", contain single braces,
+    backslashes, CR, LF, NUL or bytes ≥ 0x80 — `EvaluateString` (lexer, parser and evaluator
+    composed) returns exactly that string, for every data map that converts -/
+theorem plain_text_identity (custom : List ((VType × Bytes) × Nat)) (s : Bytes) (hp : Plain s)
+    (data : List (Bytes × GoVal)) (env : Env) (henv : envFromMap data = .ok env) :
+    ∃ out, evaluateStringPure custom s data = .ok out ∧ out = s :=
+  evaluateString_plain custom s hp data env henv
+
+/-- a text statement evaluates to its token's literal -/
+theorem html_stmt_verbatim (fuel : Nat) (c : Ctx) (env : Env) (t : Token) :
+    evalStmt (fuel + 1) c env (.html t) = .ok ({ text := t.lit }, env) := by
+  simp [evalStmt]
+
+/-! non-vacuity -/
+
+example : Plain (b "}} a { } \\ x@y @ix @ \r\n") := by decide
+example : ¬ Plain (b "a{{") := by decide
+example : ¬ Plain (b "x@if(") := by decide
+example : (match evaluateStringPure [] (b "a\\{{ x }} b{{-- c --x} ---}} --}}c") [] with | .ok o => o == b "a{{ x }} b --}}c" | _ => false) = true := by
+  decide
 
 end Tw.C05
